@@ -211,4 +211,7 @@ CONTRACTS = [
     Contract('lost_update_detected', ['pony.orm.core:EntityMeta._set_rbits', 'pony.orm.core:Attribute.__get__', 'pony.orm.core:Entity.to_dict', 'pony.orm.core:Entity._construct_optimistic_criteria_',
                                       'pony.orm.core:Entity._save_updated_', 'pony.orm.core:EntityMeta._find_in_cache_', 'pony.orm.core:EntityMeta._fetch_objects'], E2E.configs, E2E.case,
              [('a_foreign_change_of_a_read_attribute_is_detected_when_the_object_is_written', E2E.spec)], level='bounded', bound=E2E.BOUND),
+    Contract('multi_column_attributes_in_the_check', ['pony.orm.core:Entity._construct_optimistic_criteria_', 'pony.orm.core:populate_criteria_list', 'pony.orm.core:Entity._save_updated_',
+                                                      'pony.orm.core:Attribute.get_raw_values'], E2E.mc_configs, E2E.mc_case,
+             [('conflict_exactly_when_a_column_of_a_read_attribute_was_changed', E2E.mc_spec)], level='bounded', bound=E2E.BOUND_MC),
 ]
